@@ -556,7 +556,10 @@ def check_saves(obs, ro, ref, prog):
                            and r['engine_id'].startswith('processor__')}
             for n in executed:
                 if n in ref.must_nodes and n not in saved_nodes:
-                    out.append(F(['C19'], 'executed_node_not_saved', node=n))
+                    # run() returns only after the output node's task has finished, i.e. after its save: the output
+                    # node's artifact can never be missing, whatever the store's latency
+                    kind = 'output_node_not_saved' if n == prog['output'] else 'executed_node_not_saved'
+                    out.append(F(['C19'], kind, node=n))
             # value equality: saved value == final value per reference
             for r in saves:
                 n = r['node']
